@@ -33,7 +33,7 @@ var (
 	// local zone is loaded lazily by any use of a time.Time; time.open is not callable from outside package time)
 	reSink = regexp.MustCompile(`^(os\.Getenv|os\.LookupEnv|syscall\.Getenv|time\.LoadLocation|time\.Now|time\.initLocal|time\.loadLocation|time\.open|fmt\.Printf|fmt\.Print|fmt\.Println)$`)
 	// creating / opening / removing files, network, processes, plug-ins
-	reForbidden = regexp.MustCompile(`^(os\.(Open|OpenFile|Create|CreateTemp|Remove|RemoveAll|Rename|Mkdir|MkdirAll|MkdirTemp|ReadFile|WriteFile|ReadDir|Truncate|Chmod|Chown|Link|Symlink|StartProcess|Chdir|DirFS|OpenInRoot|OpenRoot|Pipe)|io/ioutil\.\w+|os/exec\..*|\(\*os/exec\.\w+\)\..*|os/user\..*|plugin\..*|log\.\w+|\(\*log\.Logger\)\.\w+|log/syslog\..*|net\..*|\(\*?net\.\w+\)\..*|net/\w+\..*|syscall\.(Open|Openat|openat|Creat|Unlink|Unlinkat|unlinkat|Mkdir|Mkdirat|Rmdir|Rename|Renameat|Link|Symlink|Socket|socket|Connect|connect|Bind|bind|Listen|ForkExec|forkExec|StartProcess|Exec|Mknod|Truncate|Chmod|Chown|Mount|Chroot|Ptrace\w*)|os\.openFileNolog|os\.open|os\.(\(\*ProcAttr\)|startProcess)|\(\*os\.Root\)\..*)$`)
+	reForbidden = regexp.MustCompile(`^(os\.(Open|OpenFile|Create|CreateTemp|Remove|RemoveAll|Rename|Mkdir|MkdirAll|MkdirTemp|ReadFile|WriteFile|ReadDir|Truncate|Chmod|Chown|Link|Symlink|StartProcess|Chdir|DirFS|OpenInRoot|OpenRoot|Pipe)|io/ioutil\.\w+|os/exec\..*|\(\*os/exec\.\w+\)\..*|os/user\..*|plugin\..*|log\.\w+|\(\*log\.Logger\)\.\w+|log/syslog\..*|\(reflect\.Value\)\.(Call|CallSlice|Method|MethodByName)|\(\*reflect\.rtype\)\.(Method|MethodByName)|println|print|net\..*|\(\*?net\.\w+\)\..*|net/\w+\..*|syscall\.(Open|Openat|openat|Creat|Unlink|Unlinkat|unlinkat|Mkdir|Mkdirat|Rmdir|Rename|Renameat|Link|Symlink|Socket|socket|Connect|connect|Bind|bind|Listen|ForkExec|forkExec|StartProcess|Exec|Mknod|Truncate|Chmod|Chown|Mount|Chroot|Ptrace\w*)|os\.openFileNolog|os\.open|os\.(\(\*ProcAttr\)|startProcess)|\(\*os\.Root\)\..*)$`)
 )
 
 type cgNode struct {
@@ -132,7 +132,10 @@ func c10Worker() int {
 			P    *int
 			S    struct{ A int }
 			F    func()
-		}{Name: "odd"}, map[string]interface{}{"Name": "odd", "N": uint32(7), "P": new(int), "S": struct{ A int }{1}, "C": make(chan int)}}
+			B    []byte
+			U    []uint16
+			L    [][]string
+		}{Name: "odd", B: []byte("ab"), U: []uint16{1, 2}, L: [][]string{{"x"}}}, map[string]interface{}{"Name": "odd", "N": uint32(7), "P": new(int), "S": struct{ A int }{1}, "C": make(chan int), "B": []byte("ab"), "U": []uint16{3}, "L": []interface{}{nil, struct{}{}}}}
 	for _, tz := range []string{"", "UTC", "America/New_York", "Nowhere/Nothing", "../../etc/passwd"} {
 		if tz == "" {
 			os.Unsetenv("TZ")
@@ -215,7 +218,7 @@ func classifySyscall(name, rest string) string {
 }
 
 func checkC10(c *Check) {
-	c.rule = "the call graph of a driver using every public entry point (built-ins only) is extracted from the current tree by rapid type analysis (golang.org/x/tools callgraph); MC_Confine receives it as data - functions, callees, roots (public methods of evaluator, VM, environment, lexer, parser, objects, every built-in), permitted sinks (environment, clock, time-zone loading, printing) which are not looked into, forbidden functions (file creation/opening/removal, directories, sockets, processes, plug-ins, os/user, the log package) - and TLC explores every call path from every root with the invariant that no forbidden function is entered; the import sets of the library packages are checked; a worker running 17 scripts exercising every built-in (incl. hostile arguments and 5 TZ settings) x 8 objects (incl. structs and maps with fields of kinds the engine cannot represent) x 2 modes through Prepare/Execute/Run/Dump is traced with strace -f and every syscall between its markers is classified (writes to standard output, read-only opens of the time-zone database, threads and runtime noise are permitted); distinct = call-graph functions / traced syscalls"
+	c.rule = "the call graph of a driver using every public entry point (built-ins only) is extracted from the current tree by rapid type analysis (golang.org/x/tools callgraph); MC_Confine receives it as data - functions, callees, roots (public methods of evaluator, VM, environment, lexer, parser, objects, every built-in), permitted sinks (environment, clock, time-zone loading, printing) which are not looked into, forbidden functions (file creation/opening/removal, directories, sockets, processes, plug-ins, os/user, the log package, calling methods of host objects through reflection) - and TLC explores every call path from every root with the invariant that no forbidden function is entered; the import sets of the library packages are checked; a worker running 17 scripts exercising every built-in (incl. hostile arguments and 5 TZ settings) x 8 objects (incl. structs and maps with fields of kinds the engine cannot represent) x 2 modes through Prepare/Execute/Run/Dump is traced with strace -f and every syscall between its markers is classified (writes to standard output, read-only opens of the time-zone database, threads and runtime noise are permitted); distinct = call-graph functions / traced syscalls"
 	c.assumptions = []string{"soundness of the RTA call graph (calls through interfaces and function values are resolved to every instantiated type / address-taken function); reflection-based calls and linkname are outside it", "the classification of syscalls and of time-zone paths is done by the harness"}
 	for _, b := range forbiddenImports() {
 		c.disagree(&Disagreement{Kind: "forbidden-import", Script: "", Expected: "library packages import no file/network/process packages", Got: b})
